@@ -183,7 +183,7 @@ func (propC18) Gen(seed uint64, ex map[string]bool) interface{} {
 		KV{"hold2", &Val{T: "holder", S: "full", I: 7}},
 		KV{"holders", &Val{T: "holders", L: []*Val{{T: "holder", S: "h1"}, {T: "holder", S: "h2", I: 2}, {T: "holder", S: "h3"}}}},
 		KV{"loop", &Val{T: "map", M: []KV{{"index", s("callers")}, {"mine", i(1)}}}}, // a caller's variable that merely shares its name with the engine's loop variable
-		KV{"ui", &Val{T: "map", M: []KV{{"theme", s("dark")}}}}, // only ever used as an import alias and for |keys|length: a module map must not be printed (its macro objects print as addresses)
+		KV{"ui", &Val{T: "map", M: []KV{{"theme", s("dark")}}}},                      // only ever used as an import alias and for |keys|length: a module map must not be printed (its macro objects print as addresses)
 		KV{"cfg", &Val{T: "map", M: []KV{
 			{"db", &Val{T: "anymap", M: []KV{{"host", s("h")}, {"port", i(5432)}, {"opts", &Val{T: "anymap", M: []KV{{"ssl", &Val{T: "bool", B: true}}}}}}}},
 			{"list", &Val{T: "list", L: []*Val{s("a"), s("b")}}}}}},
